@@ -260,21 +260,21 @@ theorem iter_inv (C : Consts) (hstep : 0 < C.step) (sizes : Nat → Nat) (s s' :
     simp only [] at h
     -- the scan
     have hscan : match (if s.conns.length = 0 then (s.conns, none) else
-          scanCalls C sizes s.conns.length (match s.lastCall with | some i => i + 1 | none => 0) s.conns.length s.conns).2 with
+          scanCalls C sizes s.conns.length (nextStart s) s.conns.length s.conns).2 with
         | none => ∀ (j : Nat) c, (if s.conns.length = 0 then (s.conns, none) else
-            scanCalls C sizes s.conns.length (match s.lastCall with | some i => i + 1 | none => 0) s.conns.length s.conns).1[j]? = some c → CInvG C c []
+            scanCalls C sizes s.conns.length (nextStart s) s.conns.length s.conns).1[j]? = some c → CInvG C c []
         | some (idx, o, cw) =>
           (if s.conns.length = 0 then (s.conns, none) else
-            scanCalls C sizes s.conns.length (match s.lastCall with | some i => i + 1 | none => 0) s.conns.length s.conns).1[idx]? = some cw ∧
+            scanCalls C sizes s.conns.length (nextStart s) s.conns.length s.conns).1[idx]? = some cw ∧
           (∀ (j : Nat) c, (if s.conns.length = 0 then (s.conns, none) else
-            scanCalls C sizes s.conns.length (match s.lastCall with | some i => i + 1 | none => 0) s.conns.length s.conns).1[j]? = some c → j ≠ idx → CInvG C c []) ∧
+            scanCalls C sizes s.conns.length (nextStart s) s.conns.length s.conns).1[j]? = some c → j ≠ idx → CInvG C c []) ∧
           o ≠ .pending ∧ (cw.good = true → WInv C o cw) := by
       by_cases hn : s.conns.length = 0
       · simp only [hn, if_true]; exact g.conns
       · simp only [hn, if_false]
         exact scan_spec C hstep sizes _ _ _ _ g.conns
     generalize (if s.conns.length = 0 then (s.conns, none) else
-          scanCalls C sizes s.conns.length (match s.lastCall with | some i => i + 1 | none => 0) s.conns.length s.conns) = sc at h hscan
+          scanCalls C sizes s.conns.length (nextStart s) s.conns.length s.conns) = sc at h hscan
     obtain ⟨conns', w⟩ := sc
     simp only [] at h hscan
     cases w with
